@@ -341,6 +341,8 @@ func (d *DataChannel) handleOpen(dc *datachannel.DataChannel, isRemote, isAlread
 		if err := dc.Close(); err != nil {
 			d.log.Errorf("Failed to close DataChannel that was closed during connecting state %v", err.Error())
 		}
+		// no read loop will ever run for this channel: this is where it becomes closed
+		d.setReadyState(DataChannelStateClosed)
 		d.onClose()
 
 		return
